@@ -174,6 +174,9 @@ func C05(env *Env) {
 			}
 		}
 	}
+	// a configuration message cannot erase the conflict: RootOfTrustToOptions copies
+	// check_crl / get_collateral into the options unchanged (C02's R4 rule)
+	env.via("C02", func(s *Env) { s.c02RootOfTrust() })
 	r.Floor("C05/FETCH", 5)
 	r.Floor("C05/AUTH", 13)
 	r.Floor("C05/SCAN", 8)
